@@ -321,7 +321,7 @@ theorem refill_trace {P : Params} {olds : Array Content} {src : Content} {s : DS
 
 /-- On a full window, `hashStep` leaves the true weak hash of the window in the state, and `skip` is only
     raised when this hash equals that of the window one byte before. -/
-theorem hashStep_full {P : Params} {src : Content} {s : DState} (hr : RollOK P src s) :
+theorem hashStep_full {P : Params} (hbs : 0 < P.bs) {src : Content} {s : DState} (hr : RollOK P src s) :
     ∃ a b c r, (hashStep src s (s.sumTail + P.bs)).1 = { s with β := a, β1 := b, β2 := c, rolling := r } ∧
       r = true ∧ a = (betaHash src (s.base + s.sumTail) P.bs).1 ∧
       a = b + M * c ∧ b = S1 src (s.base + s.sumTail) P.bs % M ∧
@@ -342,7 +342,7 @@ theorem hashStep_full {P : Params} {src : Content} {s : DState} (hr : RollOK P s
         s.β2 s.αPop (s.sumTail + P.bs - s.sumTail).toUInt32 = S2 src (k + 1) P.bs % M := by
       rw [hβ2, hα, Nat.add_sub_cancel_left]; exact q2
     unfold hashStep
-    rw [if_pos hroll]
+    rw [if_pos hroll, if_neg (by omega)]
     dsimp only
     refine ⟨_, _, _, s.rolling, rfl, hroll, ?_, rfl, ?_, ?_, ?_⟩
     · rw [e1, e2, hk, betaHash_eq]; rfl
@@ -545,7 +545,7 @@ theorem iter_trace {P : Params} (hbs : 0 < P.bs) {olds : List Content} {src : Co
     refine Or.inl ?_
     have hmin : min (s1.sumTail + P.bs) s1.validTo = s1.sumTail + P.bs := Nat.min_eq_left r3
     rw [hmin] at hs'
-    obtain ⟨a, b, c, r, he, hrt, ha, hab, hb, hc', hskip⟩ := hashStep_full hr1
+    obtain ⟨a, b, c, r, he, hrt, ha, hab, hb, hc', hskip⟩ := hashStep_full hbs hr1
     rw [he] at hs'
     subst hrt
     dsimp only at hs'
